@@ -1,6 +1,7 @@
 """Input generators and reference oracles (untrusted; search and correspondence only):
 lexeme tables, token-level mutations, grammar-derived sentences, an Earley recogniser."""
 import re, random
+from tools.harness.common import HangDetected as _Hang
 from . import common, corpus as corpus_mod
 
 _lex_cache = {}
@@ -18,7 +19,7 @@ def lexemes(dialect):
     def single(text):
         try:
             toks = list(cls().tokenize(text))
-        except Exception:
+        except (Exception, _Hang):
             return None
         if len(toks) == 1:
             return toks[0].type
@@ -56,7 +57,7 @@ def lexemes(dialect):
             for t in cls().tokenize(s):
                 if t.type not in table or len(table[t.type]) < 3:
                     add(t.type, s[t.index:t.end])
-        except Exception:
+        except (Exception, _Hang):
             pass
     _lex_cache[dialect] = table
     return table
